@@ -273,7 +273,7 @@ Definition merge_item (cur : row) (item : value) : res value :=
 (* the query context New builds from the document *)
 Definition api_ctx (wrapped : bool) (doc : value) : qctx :=
   Build_qctx (if wrapped then ("root"%string, doc) :: nil
-              else match doc with VObj kv => kv | _ => nil end) nil nil.
+              else match doc with VObj kv => kv | _ => nil end) nil nil nil.
 
 Section Hits.
   Variable T : string -> string -> list value -> row -> bool.
@@ -298,9 +298,19 @@ Section Hits.
               match cte_lookup k (c_ctes ctx) with
               | Some body =>
                   if existsb (String.eqb k) (c_busy ctx) then False
-                  else rec_hits {| c_data := c_data ctx; c_ctes := c_ctes ctx; c_busy := k :: c_busy ctx |}
+                  else rec_hits {| c_data := c_data ctx; c_ctes := c_ctes ctx; c_busy := k :: c_busy ctx;
+                                   c_up := c_up ctx |}
                                 (JStmt body)
-              | None => False
+              | None =>
+                  (* `<-`. ... .name: the thunk of an enclosing query *)
+                  match up_read ctx path with
+                  | Some h =>
+                      if existsb (String.eqb (uh_name h)) (fr_busy (uh_frame h)) then False
+                      else rec_hits {| c_data := fr_data (uh_frame h); c_ctes := fr_ctes (uh_frame h);
+                                       c_busy := uh_name h :: fr_busy (uh_frame h); c_up := uh_up h |}
+                                    (JStmt (uh_body h))
+                  | None => False
+                  end
               end
           end
       | FDerived q _ => rec_hits ctx (JStmt q)
@@ -312,31 +322,35 @@ Section Hits.
              join_hits jt st lrows rrows (from_ident l) (from_ident r) on (c_data ctx))
       end.
 
-    Definition sub_hits (q : stmt) (cur : row) : Prop := rec_hits (sub_ctx cur) (JStmt q).
+    (* [pctx]: the query whose expression contains the subquery *)
+    Definition sub_hits (pctx : qctx) (q : stmt) (cur : row) : Prop :=
+      rec_hits (sub_ctx pctx cur) (JStmt q).
 
-    Definition exists_hits (q : stmt) (cur : row) : Prop :=
+    Definition exists_hits (pctx : qctx) (q : stmt) (cur : row) : Prop :=
       match q with
       | SSelect s' =>
-          build_hits (sub_ctx cur) (s_from s') \/
+          build_hits (sub_ctx pctx cur) (s_from s') \/
           exists rows merged,
-            build_from rec join (sub_ctx cur) (s_from s') = Ok (Some rows) /\
+            build_from rec join (sub_ctx pctx cur) (s_from s') = Ok (Some rows) /\
             mapM (merge_item cur) rows = Ok merged /\
-            rec_hits (sub_ctx cur) (JRows s' merged)
+            rec_hits (sub_ctx pctx cur) (JRows s' merged)
       | _ => False
       end.
 
-    Definition cond_hits (E : env stmt) := cond_invokes stmt E T sub_hits exists_hits.
-    Definition items_hit (E : env stmt) := items_invoke stmt E T sub_hits exists_hits.
+    Definition cond_hits (pctx : qctx) (E : env stmt) :=
+      cond_invokes stmt E T (sub_hits pctx) (exists_hits pctx).
+    Definition items_hit (pctx : qctx) (E : env stmt) :=
+      items_invoke stmt E T (sub_hits pctx) (exists_hits pctx).
 
     (* ExecSelect *)
-    Definition select_hits (E : env stmt) (s : select stmt) (rows : list value) : Prop :=
+    Definition select_hits (pctx : qctx) (E : env stmt) (s : select stmt) (rows : list value) : Prop :=
       if (match s_group s with [] => true | _ => false end) && all_aggregate (s_items s)
-      then items_hit E [] (s_items s)
+      then items_hit pctx E [] (s_items s)
       else (fix go (l : list value) : Prop :=
               match l with
               | [] => False
               | VObj kv :: r =>
-                  items_hit E kv (s_items s) \/ (ok (select_expr E kv (s_items s) []) /\ go r)
+                  items_hit pctx E kv (s_items s) \/ (ok (select_expr E kv (s_items s) []) /\ go r)
               | VArr _ :: r => go r
               | _ :: _ => False
               end) rows.
@@ -350,12 +364,12 @@ Section Hits.
              rec_hits ctx (JRows (copy_query s) inner) \/
              (ok (rec ctx (JRows (copy_query s) inner)) /\ go r)
          | VObj kv :: r =>
-             cond_hits E kv (s_where s) \/ (ok (eval_cond E kv (s_where s)) /\ go r)
+             cond_hits ctx E kv (s_where s) \/ (ok (eval_cond E kv (s_where s)) /\ go r)
          | _ :: r => go r
          end) from.
 
     (* ExecGroupBy: HAVING on every group row, in group order *)
-    Definition group_hits (E : env stmt) (s : select stmt) (rows : list value) : Prop :=
+    Definition group_hits (pctx : qctx) (E : env stmt) (s : select stmt) (rows : list value) : Prop :=
       match s_group s with
       | [] => False
       | cols =>
@@ -364,22 +378,22 @@ Section Hits.
                match gs with
                | [] => False
                | g :: r =>
-                   cond_hits E (group_row g) (s_having s) \/
+                   cond_hits pctx E (group_row g) (s_having s) \/
                    (ok (eval_cond E (group_row g) (s_having s)) /\ go r)
                end) gs
       end.
 
     Definition run_hits (ctx : qctx) (s : select stmt) (src : option (list value)) : Prop :=
       match src with
-      | None => select_hits (mk_env rec call join ctx s []) s [VObj (c_data ctx)]
+      | None => select_hits ctx (mk_env rec call join ctx s []) s [VObj (c_data ctx)]
       | Some from =>
           filter_hits ctx s (mk_env rec call join ctx s []) from \/
           exists filtered,
             filter_rows rec ctx s (mk_env rec call join ctx s []) from = Ok filtered /\
-            (group_hits (mk_env rec call join ctx s filtered) s filtered \/
+            (group_hits ctx (mk_env rec call join ctx s filtered) s filtered \/
              exists grouped,
                exec_group_by (mk_env rec call join ctx s filtered) s filtered = Ok grouped /\
-               select_hits (mk_env rec call join ctx s filtered) s grouped)
+               select_hits ctx (mk_env rec call join ctx s filtered) s grouped)
       end.
 
     Definition step_hits (ctx : qctx) (j : job) : Prop :=
@@ -413,9 +427,12 @@ Section Hits.
         induction f as [|path alias|fn path alias|q alias|jt st l IHl r IHr on]; intros ctx H;
           cbn [build_hits] in H; try contradiction; cbn [build_from].
         - destruct path as [|k rest]; [contradiction|].
-          destruct (cte_lookup k (c_ctes ctx)) as [body|]; [|contradiction].
-          destruct (existsb (String.eqb k) (c_busy ctx)); [contradiction|].
-          apply fails_bind, Hrech, H.
+          destruct (cte_lookup k (c_ctes ctx)) as [body|].
+          + destruct (existsb (String.eqb k) (c_busy ctx)); [contradiction|].
+            apply fails_bind, Hrech, H.
+          + destruct (up_read ctx (k :: rest)) as [h|]; [|contradiction].
+            destruct (existsb (String.eqb (uh_name h)) (fr_busy (uh_frame h))); [contradiction|].
+            apply fails_bind, Hrech, H.
         - apply fails_bind, Hrech, H.
         - destruct H as [H|[[Hok H]|[lrows [rrows [Hl [Hr H]]]]]]; [apply fails_bind, IHl, H| |].
           + eapply step_bind; [apply (build_from_R ap rec rec' join join' Hrec Hjoin)|exact Hok|].
@@ -430,11 +447,11 @@ Section Hits.
       Let envR ctx s filtered := mk_env_R ap rec rec' call call' join join' Hrec Hcall Hjoin ctx s filtered.
 
       Lemma env_HS : forall ctx s filtered q c,
-        sub_hits q c -> fails ap (e_sub (mk_env rec' call' join' ctx s filtered) q c).
+        sub_hits ctx q c -> fails ap (e_sub (mk_env rec' call' join' ctx s filtered) q c).
       Proof. intros. cbn [mk_env e_sub]. apply Hrech. assumption. Qed.
 
       Lemma env_HX : forall ctx s filtered q c,
-        exists_hits q c -> fails ap (e_exists (mk_env rec' call' join' ctx s filtered) q c).
+        exists_hits ctx q c -> fails ap (e_exists (mk_env rec' call' join' ctx s filtered) q c).
       Proof.
         intros ctx s filtered q c H. cbn [mk_env e_exists]. destruct q as [s'|]; [|contradiction].
         cbn [exists_hits] in H. destruct H as [H|[rows [merged [Hb [Hm H]]]]].
@@ -442,7 +459,7 @@ Section Hits.
         - eapply step_bind; [apply (build_from_R ap rec rec' join join' Hrec Hjoin)|eexists; exact Hb|].
           intros src Hsrc. rewrite Hb in Hsrc. injection Hsrc as <-.
           change (fails ap (let! merged0 := mapM (merge_item c) rows in
-                            let! out := rec' (sub_ctx c) (JRows s' merged0) in
+                            let! out := rec' (sub_ctx ctx c) (JRows s' merged0) in
                             match out with VArr l => Ok (negb (Nat.eqb (List.length l) 0)) | _ => Err end)).
           rewrite Hm. cbn [bind]. apply fails_bind, Hrech, H.
       Qed.
@@ -452,21 +469,21 @@ Section Hits.
       Proof. intros. cbn [mk_env e_call]. apply HT. assumption. Qed.
 
       Lemma cond_surfaces : forall ctx s filtered cur c,
-        cond_hits (mk_env rec call join ctx s filtered) cur c ->
+        cond_hits ctx (mk_env rec call join ctx s filtered) cur c ->
         fails ap (eval_cond (mk_env rec' call' join' ctx s filtered) cur c).
       Proof.
         intros. eapply eval_cond_surfaces; eauto using envR, env_HT, env_HS, env_HX.
       Qed.
 
       Lemma items_surfaces : forall ctx s filtered cur items acc,
-        items_hit (mk_env rec call join ctx s filtered) cur items ->
+        items_hit ctx (mk_env rec call join ctx s filtered) cur items ->
         fails ap (select_expr (mk_env rec' call' join' ctx s filtered) cur items acc).
       Proof.
         intros. eapply select_expr_surfaces; eauto using envR, env_HT, env_HS, env_HX.
       Qed.
 
       Lemma select_surfaces : forall ctx s filtered rows,
-        select_hits (mk_env rec call join ctx s filtered) s rows ->
+        select_hits ctx (mk_env rec call join ctx s filtered) s rows ->
         fails ap (exec_select (mk_env rec' call' join' ctx s filtered) s rows).
       Proof.
         intros ctx s filtered rows H. unfold select_hits in H. unfold exec_select.
@@ -496,7 +513,7 @@ Section Hits.
       Qed.
 
       Lemma group_surfaces : forall ctx s filtered rows,
-        group_hits (mk_env rec call join ctx s filtered) s rows ->
+        group_hits ctx (mk_env rec call join ctx s filtered) s rows ->
         fails ap (exec_group_by (mk_env rec' call' join' ctx s filtered) s rows).
       Proof.
         intros ctx s filtered rows H. unfold group_hits in H. unfold exec_group_by.
